@@ -29,6 +29,10 @@ import Inkayaku.Props.Translated.GenerateCastle
 import Inkayaku.Props.Translated.GenerateTop
 import Inkayaku.Props.Translated.GenerateLegal
 import Inkayaku.Props.Translated.GenerateRules
+import Inkayaku.Props.Translated.FenDecode
+import Inkayaku.Props.Translated.FenFromStr
+import Inkayaku.Props.Translated.FenRoundtrip
+import Inkayaku.Props.Translated.FenWrite
 /-! Umbrella module: the equivalence theorems between the Rust functions translated on every run (`Gen/Rs/*.lean`, by
 `/verif/translator`) and the hand-written model live in `Props/Translated/*.lean`, one file per Rust source / topic.
 The first ten targets are listed in `Props/Translated/Basic.lean`; round 2 added:
@@ -67,5 +71,18 @@ in/out list of packed moves (`encMove m = (m.bits, m.mvvlva)`); all equalities a
 | `Bitboard::{generate_pseudo_legal_moves(_with_buffer), generate_pseudo_legal_non_quiescent_moves(_with_buffer), get_active_and_passive}` | `Bitboard.generate_pseudo_legal_moves` … (`Generate`) | `genPseudo`, `genNonQuiescent` | `rs_generate_pseudo_legal_buffer_eq`, `rs_generate_non_quiescent_buffer_eq`, `rs_generate_pseudo_legal_eq`, `rs_generate_non_quiescent_eq`, `rs_generate_pseudo_legal_wf`, `rs_generate_non_quiescent_wf` (`GenerateTop.lean`) |
 | `Bitboard::{generate_legal_moves, is_any_move_legal}`           | `Bitboard.generate_legal_moves`, `.is_any_move_legal` (`GenerateLegal`) | `genLegal`, `isAnyMoveLegal` | `rs_generate_legal_moves_eq`, `rs_is_any_move_legal_eq` (`GenerateLegal.lean`) |
 | C01 for the regenerated source                                  |                                                    | `Spec.legalMoves`, `Spec.pseudoMoves` | `rs_generate_legal_eq_rules`, `rs_generate_pseudo_legal_eq_rules` (`GenerateRules.lean`: composition with `Closure.genLegal_eq_rules` / `C01.legal_moves_exact`) |
+
+ROUND 4: FEN READER / WRITER (property C12).  Generated modules `FenText` (the `Fen` value = text + byte ranges of the regex groups, its
+getters with the four-field defaults), `FenFromStr` (`validate_ranks`, `from_str` without the regex), `FenDecode` (`FenParseExt`,
+`From<&Fen> for Bitboard`), `FenWrite` (`From<&Bitboard> for Fen`, `get_colored_piece`, `square_to_string`).  Opaque: the regex match
+(`Fen::parse`, `Captures::get`, `Match::range`; assumed to behave like `FenSyntax.regexGroups`: `RegexModel`) and the data tables of
+`inkayaku_core::constants` (`Square`, `Piece`, `ColoredPiece`).
+
+| Rust                                                            | generated `Inkayaku.Rs.…` (module)                 | model                              | theorems (file) |
+|-----------------------------------------------------------------|----------------------------------------------------|------------------------------------|-----------------|
+| `FenParseExt for Fen` (`parse_player_states`, `parse_turn`, `parse_en_passant_square_shift`, `parse_*_clock`), `From<&Fen> for Bitboard`, `square_shift_from_fen_unchecked`, `square_mask_from_index`, `Fen::get_*` | `Fen.parse_player_states` …, `Bitboard.from` (`FenDecode`, `FenText`) | `FenBoard.boardOfFields`, `placeRank(s)`, `squareOfName` | `rs_place_rank`, `rs_place_ranks`, `rs_parse_player_states_eq`, `rs_parse_turn_eq`, `rs_parse_ep_eq`, `rs_square_shift_from_fen`, `parseU32_clock`, `rs_fen_decode_eq`, `rs_fen_decode_fromFenString` (`FenDecode.lean`) |
+| reader composed, round trip through the translated reader | | `fromFenString`, `printFen`, `C12.print_parse_board` | `rs_fen_read_eq`, `rs_fen_roundtrip_read`, `rs_fen_roundtrip` (translated writer, then translated reader on the writer's `Fen` value) (`FenRoundtrip.lean`) |
+| `From<&Bitboard> for Fen` (writer: rank / file loops with empty-run counting, side, castling letters, e.p. text, clocks, re-parse), `Bitboard::get_colored_piece`, `PlayerState::find_piece_struct_by_square_mask`, `square_to_string`, `Square::from_indices` | `Fen.from`, `Fen.from.for_1/for_2`, `Bitboard.get_colored_piece`, `square_to_string` (`FenWrite`) | `FenBoard.printFen`, `printRank(s)`, `coloredPiece` | `rs_find_piece`, `rs_get_colored_piece_eq`, `rs_for_2`, `rs_for_1`, `rs_square_to_string`, `rs_fen_write_eq` (`FenWrite.lean`; assumptions `PieceTables`, `SquareTables`, `RegexModel`) |
+| `Fen::validate_ranks`, `impl FromStr for Fen` (`from_str`: alias, rank validation, clock checks, construction of the `Fen` value) | `Fen.validate_ranks`, `Fen.from_str` (`FenFromStr`) | `FenSyntax.validateRanks`, `parseChars` | `rs_validate_rank_fuel`, `rs_validate_ranks_eq`, `rs_fen_from_str_eq`, `rs_fen_from_str_startpos` (`FenFromStr.lean`) |
 
 Mutation sanity check of all of these: `/verif/translator/mutation_check.sh`. -/
